@@ -25,7 +25,7 @@ func runC01_12(c *core.Ctx) {
 			continue
 		}
 		res := sig.Results().At(0)
-		if b, ok := res.Type().Underlying().(*types.Basic); !ok || b.Info()&types.IsInteger == 0 || res.Name() == "" {
+		if b, ok := res.Type().Underlying().(*types.Basic); !ok || b.Info()&types.IsInteger == 0 || nameOf(res) == "" {
 			continue // not a count, or unnamed: C01.7 covers the exposure forms
 		}
 		// advances by a variable k
